@@ -894,6 +894,9 @@ func (ev *evaluator) evalCall(c *mrogen.Call, en *env) *callResult {
 	}
 	// mapped call
 	ev.feature("map-call:" + mapKind)
+	if !isStage {
+		ev.feature("map-call-of-pipeline")
+	}
 	type splitArg struct {
 		param string
 		val   tv
